@@ -4,6 +4,7 @@ CONSTANTS
   MaxConc = 2
   Kinds = {"fresh", "revert"}
   FailLate = TRUE
+  Off = {}
 INIT Init
 NEXT Next
 VIEW View
